@@ -38,7 +38,14 @@ CvaArrays == {a \in ArraysOf("f", Small) \cup ArraysOf("i", Small) : TwoDistinct
 A2 == <<"f", <<R(1), R(2)>>>>
 A3 == <<"f", <<R(1), R(2), R(3)>>>>
 I3 == <<"i", <<R(1), MV, R(3)>>>>
-ErrIns == {<<>>, <<A2, A3>>, <<A3, A2>>, <<A2, A2, A3>>, <<I3, A2>>, <<A3, I3, A2>>}
+\* same number of cells, different shapes (some of them broadcast-compatible)
+G23 == <<"f", <<R(1), R(2), R(3), R(4), R(5), R(6)>>, <<2, 3>>>>
+G32 == <<"f", <<R(1), R(2), R(3), R(4), R(5), R(6)>>, <<3, 2>>>>
+G6 == <<"f", <<R(1), R(2), R(3), R(4), R(5), R(6)>>, <<6>>>>
+G16 == <<"i", <<R(1), R(2), R(3), R(4), R(5), R(6)>>, <<1, 6>>>>
+G61 == <<"f", <<R(1), R(2), R(3), R(4), R(5), R(6)>>, <<6, 1>>>>
+ErrIns == {<<>>, <<A2, A3>>, <<A3, A2>>, <<A2, A2, A3>>, <<I3, A2>>, <<A3, I3, A2>>,
+           <<G23, G32>>, <<G6, G16>>, <<G16, G61>>, <<G23, G23, G32>>, <<G61, G6>>, <<G23, G6>>}
 
 InsSet == CASE Family = "fz" -> [1..NIn -> FzArrays]
             [] Family = "ar" -> [1..NIn -> ArArrays]
